@@ -41,46 +41,65 @@ def translate(repo='/repo'):
     if len(arms) < 40: raise TranslateError('only %d async dispatch arms parsed' % len(arms))
     dm = re.search(r'_\s*=>\s*\{?\s*ctx\s*\.\s*async_reply_error\(io::Error::from_raw_os_error\(libc::(\w+)\)\)', arms_src)
     if not dm: raise TranslateError('default async dispatch arm not found')
-    # gate
-    gm = re.search(r'if\s+(ctx\.in_header\.len\s*>[^{]*)\{', gate_src)
-    if not gm: raise TranslateError('async gate not found')
+    bodies = fn_bodies(src)
+    handler_names = set(a[2] for a in arms)
+    def nostr(b): return re.sub(r'"(?:[^"\\]|\\.)*"', '""', b)
+    def helpers_of(b, skip=()):
+        """private functions of this file called from body b (one level): `self.f(`, `ctx.f(`, `Self::f(`, `ServerUtil::f(`"""
+        out = []
+        for g in re.findall(r'(?:\.|::)\s*(\w+)\s*\(', b):
+            if g in bodies and g not in handler_names and g not in skip and g not in out: out.append(g)
+        return out
+    def expanded(name):
+        """[(function name, body)]: the function and, one level deep, the private helpers it calls"""
+        b = nostr(bodies.get(name, ''))
+        if not b: raise TranslateError('body of %s not found' % name)
+        return [(name, b)] + [(g, nostr(bodies[g])) for g in helpers_of(b, skip=(name,))]
+    ERR_REPLY = r'async_(?:do_)?reply_error(?:_explicit)?\s*\(\s*(?:std::)?io::Error::from_raw_os_error\s*\(\s*libc::(\w+)'
+    # gate: the `if` in front of the dispatch whose condition mentions MAX_BUFFER_SIZE (locals may be renamed / hoisted)
+    gm = re.search(r'\bif\s+([^{};]*MAX_BUFFER_SIZE[^{]*)\{', gate_src)
+    if not gm: raise TranslateError('async gate (an `if` on MAX_BUFFER_SIZE before the dispatch) not found')
     cond = ' '.join(gm.group(1).split())
     gb = gate_src[gm.end() - 1:]; gb = gb[:match_brace(gb, 0)]
-    ge = re.search(r'async_do_reply_error\(\s*io::Error::from_raw_os_error\(libc::(\w+)\)', gb)
-    gate = {'checks_capacity': 'available_bytes' in cond, 'exempts_forget': 'Opcode::Forget' in gb or 'Opcode::BatchForget' in gb,
-            'errno': LIBC_ERRNO.get(ge.group(1), 0) if ge else 0, 'cond': cond}
-    bodies = fn_bodies(src)
-    wb = bodies.get('async_write', '')
-    wm = re.search(r'if\s+size\s*>\s*MAX_BUFFER_SIZE\s*\{[^{}]*from_raw_os_error\(libc::(\w+)\)', wb)
-    write_gate = LIBC_ERRNO[wm.group(1)] if wm else 0
+    ge = re.search(ERR_REPLY, gb)
+    if not ge: raise TranslateError('the async gate sends no error reply that can be read')
+    gate = {'checks_capacity': 'available_bytes' in gate_src,
+            'exempts_forget': ('Opcode::Forget' in gate_src and 'Opcode::BatchForget' in gate_src and bool(re.search(r'\breturn\s+Err\b', gb))),
+            'errno': LIBC_ERRNO.get(ge.group(1), 0), 'cond': cond}
+    # async_write: an `if` on MAX_BUFFER_SIZE whose block sends an error reply before the filesystem is called
+    write_gate = 0
+    for fn, b in expanded('async_write'):
+        for wm in re.finditer(r'\bif\s+([^{};]*MAX_BUFFER_SIZE[^{]*)\{', b):
+            blk = b[wm.end() - 1:]; blk = blk[:match_brace(blk, 0)]
+            we = re.search(ERR_REPLY, blk)
+            if we: write_gate = LIBC_ERRNO.get(we.group(1), 0)
     # which fs method each async handler awaits
     calls = []
     for n, op, h, a in arms:
         if a:
-            ms = re.findall(r'\.\s*fs\s*\.\s*(\w+)\s*\(', bodies.get(h, ''))
+            ms = []
+            for fn, b in expanded(h):
+                for x in re.findall(r'\.\s*fs\s*\.\s*(\w+)\s*\(', b):
+                    if x not in ms: ms.append(x)
             calls.append([n, h, ms])
-    # handlers that decode a name: is a bytes_to_cstr failure answered (EINVAL) before the error is returned?
-    def nostr(b): return re.sub(r'"(?:[^"\\]|\\.)*"', '""', b)
+    # handlers that decode a name (directly or through a private helper): in the function that calls bytes_to_cstr, is an
+    # EINVAL error reply sent after that call (on its failure path), i.e. before the handler goes on to the filesystem?
     badname = {}
     for n, op, h, a in arms:
         if not a: continue
-        b = nostr(bodies.get(h, ''))
-        if not b: raise TranslateError('body of %s not found' % h)
-        if 'bytes_to_cstr' in b:
-            m2 = re.search(r'match\s+bytes_to_cstr\s*\(.*?\)\s*\{', b, flags=re.S)
-            ok = False
-            if m2:
-                blk = b[m2.end() - 1:]; blk = blk[:match_brace(blk, 0)]
-                em = re.search(r'Err\s*\(\s*\w+\s*\)\s*=>\s*\{', blk)
-                if em:
-                    eb = blk[em.end() - 1:]; eb = eb[:match_brace(eb, 0)]
-                    ok = bool(re.search(r'async_reply_error(?:_explicit)?\s*\(\s*io::Error::from_raw_os_error\s*\(\s*libc::EINVAL', eb)) and bool(re.search(r'return\s+Err', eb))
-            badname[n] = ok
+        for fn, b in expanded(h):
+            k = b.find('bytes_to_cstr')
+            if k < 0: continue
+            rest = b[k:]
+            fsm = re.search(r'\.\s*fs\s*\.', rest)
+            if fsm: rest = rest[:fsm.start()]
+            badname[n] = any(e == 'EINVAL' for e in re.findall(ERR_REPLY, rest))
+            break
     if sorted(badname) != [1, 35]: raise TranslateError('async handlers that decode a name are %s, expected lookup (1) and create (35)' % sorted(badname))
     # fusedev async_commit
     fsrc = strip_comments(open(os.path.join(repo, 'src/transport/fusedev/mod.rs')).read())
     fb = fn_bodies(fsrc)
-    def has_unbuffered_return(b): return bool(re.search(r'if\s*!\s*self\.buffered\s*\{\s*return\s+Ok\(0\)', b))
+    def has_unbuffered_return(b): return bool(re.search(r'if\s*!\s*self\s*\.\s*buffered\s*\{\s*return\s+Ok\s*\(\s*0\s*\)', b))
     if 'commit' not in fb or 'async_commit' not in fb: raise TranslateError('commit/async_commit not found in fusedev/mod.rs')
     return {'dispatch': sorted(arms, key=lambda a: [x[0] for x in arms].index(a[0])), 'default_errno': LIBC_ERRNO[dm.group(1)],
             'gate': gate, 'write_gate_errno': write_gate, 'async_calls': calls, 'badname': badname,
